@@ -101,7 +101,7 @@ class PrintTextWavePass( BasePass ):
       light_gray = '\033[47m'
       back='\033[0m'  #back to normal printing
 
-      all_signal_values = text_sigs
+      all_signal_values = sigs_dict
       #spaces before cycle number
       max_length = 5
       for sig in all_signal_values:
@@ -235,6 +235,7 @@ class PrintTextWavePass( BasePass ):
 def dump_wav():
   {}
 """.format( "\n  ".join(wav_srcs) )
-    s, l_dict = top, {}
-    exec(compile( src, filename="temp", mode="exec"), globals().update(locals()), l_dict)
+    # The generated function refers to this design and its record only
+    g_dict, l_dict = { 's': top, 'text_sigs': text_sigs }, {}
+    exec(compile( src, filename="temp", mode="exec"), g_dict, l_dict)
     return l_dict['dump_wav'], text_sigs
